@@ -278,3 +278,245 @@ def c01_cases(thorough):
       seen.add(t)
       c.dbs = dbs; c.fact_dbs = FACT_DBS_AB
       yield c
+
+
+# ======================================================================================== C02 families
+AGG_OPS = ['Sum', 'Min', 'Max', 'Count', 'List', 'Set', 'Avg']
+AGG_BODIES = [
+  (Lit('A', x, y),), (Lit('A', x, y), Lit('B', y)), (Lit('A', x, y), Lit('A', y, z)), (Lit('A', x, y), Not(Lit('B', x))),
+  (Lit('B', x), ('in', y, ('list', (x, N(1))))), (Lit('A', y, x),), (Lit('A', x, y), Cmp('<', x, N(2))), (Lit('B', x), Lit('B', y)),
+]
+
+
+def arrow(a, b): return ('arrow', a, b)
+
+
+def gen_aggh(full):
+  """predicate-level aggregation"""
+  bodies = AGG_BODIES if full else AGG_BODIES[:6]
+  exprs = [y, Bin('+', x, y), N(1)]
+  for body in bodies:
+    for op in AGG_OPS:
+      for e in exprs:
+        yield Case('AGGH', Program([R('T', x, Aggr(op, e), body=body, distinct=True)]), ['T'])
+        yield Case('AGGH', Program([R('T', Aggr(op, e), body=body, distinct=True)]), ['T'], info='keyless')
+        yield Case('AGGH', Program([R('T', x, y, Aggr(op, e), body=body, distinct=True)]), ['T'])
+        yield Case('AGGH', Program([R('T', Bin('+', x, N(1)), Aggr(op, e), body=body, distinct=True)]), ['T'])
+        yield Case('AGGH', Program([R('T', x, value=Aggr(op, e), body=body)]), ['T'])                      # T(x) Op= e
+        yield Case('AGGH', Program([R('T', x, Aggr(op, e), Aggr('Max', y), body=body, distinct=True)]), ['T'])
+        yield Case('AGGH', Program([R('T', x, named={'s': Aggr(op, e), 'm': Aggr('Min', Bin('*', y, N(2)))}, body=body, distinct=True)]), ['T'])
+    for op in ('ArgMin', 'ArgMax'):
+      for e in (arrow(y, x), arrow(y, y), arrow(x, Bin('+', x, y)), arrow(Bin('+', x, y), y)):
+        yield Case('AGGH', Program([R('T', x, Aggr(op, e), body=body, distinct=True)]), ['T'])
+        yield Case('AGGH', Program([R('T', Aggr(op, e), body=body, distinct=True)]), ['T'], info='keyless')
+        yield Case('AGGH', Program([R('T', x, value=Aggr(op, e), body=body)]), ['T'])
+    yield Case('AGGH', Program([R('T', x, y, body=body, distinct=True)]), ['T'])                            # plain distinct
+    yield Case('AGGH', Program([R('T', x, body=body, distinct=True)]), ['T'])
+    yield Case('AGGH', Program([R('T', Bin('+', x, y), body=body, distinct=True)]), ['T'])
+  # multi-body aggregation: all pairs of bodies, one signature
+  for b1, b2 in itertools.product(bodies[:6], repeat=2):
+    for op in ('Sum', 'Max', 'Count', 'List') if full else ('Sum', 'Max'):
+      yield Case('AGGH', Program([R('T', x, Aggr(op, y), body=b1, distinct=True), R('T', x, Aggr(op, y), body=b2, distinct=True)]), ['T'], info='multibody')
+      yield Case('AGGH', Program([R('T', x, value=Aggr(op, y), body=b1), R('T', x, value=Aggr(op, Bin('+', y, N(1))), body=b2)]), ['T'], info='multibody')
+    yield Case('AGGH', Program([R('T', x, body=b1, distinct=True), R('T', y, body=b2, distinct=True)]), ['T'], info='multibody')
+    yield Case('AGGH', Program([R('T', Aggr('Sum', y), body=b1, distinct=True), R('T', Aggr('Sum', x), body=b2, distinct=True)]), ['T'], info='keyless')
+    yield Case('AGGH', Program([R('T', x, Aggr('Min', y), Aggr('Sum', N(1)), body=b1, distinct=True), R('T', x, Aggr('Min', x), Aggr('Sum', y), body=b2, distinct=True)]), ['T'], info='multibody')
+  # a consumer of an aggregating predicate
+  for op in ('Sum', 'Count', 'Max'):
+    P = R('P', x, Aggr(op, y), body=(Lit('A', x, y),), distinct=True)
+    yield Case('AGGH', Program([P, R('T', x, s_, body=(Lit('P', x, s_),))]), ['T', 'P'])
+    yield Case('AGGH', Program([P, R('T', x, s_, body=(Lit('B', x), Lit('P', x, s_), Cmp('>', s_, N(1))))]), ['T'])
+    yield Case('AGGH', Program([P, R('T', Aggr('Sum', s_), body=(Lit('P', x, s_),), distinct=True)]), ['T'], info='keyless')
+
+
+s_ = V('s'); t_ = V('t'); u_ = V('u')
+AGGE_INNER = [
+  (Lit('A', x, y),), (Lit('A', y, x),), (Lit('A', x, y), Lit('B', y)), (Lit('A', x, y), Cmp('<', y, N(2))),
+  (Lit('A', y, z), Lit('B', z)), (Lit('A', y, y),), (Lit('A', x, y), Not(Lit('B', y))), (('in', y, ('list', (x, N(1), N(1)))),),
+]
+
+
+def comb_forms(var, op, e, body):
+  """the three syntaxes of an aggregating expression bound to var"""
+  return [Eq(var, Comb(op, e, body, 0)), Eq(var, Comb(op, e, body, 1)), ('aggeq', var[1], op, e, tuple(body)), Eq(var, Comb(op, e, body, 0), '=')]
+
+
+def gen_agge(full):
+  inner = AGGE_INNER if full else AGGE_INNER[:6]
+  for ib in inner:
+    for op in AGG_OPS:
+      for e in (y, Bin('+', x, y), N(1)):
+        for form in comb_forms(s_, op, e, ib)[:(4 if full else 3)]:
+          yield Case('AGGE', Program([R('T', x, s_, body=(Lit('B', x), form))]), ['T'])
+    for op in ('ArgMin', 'ArgMax'):
+      yield Case('AGGE', Program([R('T', x, s_, body=(Lit('B', x), Eq(s_, Comb(op, arrow(y, y), ib))))]), ['T'])
+  # zero, one, two correlated variables
+  for op in ('Sum', 'Count', 'List', 'Max'):
+    yield Case('AGGE', Program([R('T', x, s_, body=(Lit('B', x), Eq(s_, Comb(op, z, (Lit('A', z, V('w')),)))))]), ['T'])               # uncorrelated
+    yield Case('AGGE', Program([R('T', x, y, s_, body=(Lit('A', x, y), Eq(s_, Comb(op, z, (Lit('A', x, z), Cmp('<=', z, y))))))]), ['T'])   # two correlated
+    yield Case('AGGE', Program([R('T', x, y, s_, body=(Lit('A', x, y), Eq(s_, Comb(op, y, (Lit('A', x, y),)))))]), ['T'])                 # both outer (Appendix A)
+    yield Case('AGGE', Program([R('T', s_, body=(Eq(s_, Comb(op, Bin('+', x, y), (Lit('A', x, y),))),))]), ['T'])                             # no outer literal
+  # two sibling combines with the same local variable name
+  pairs = list(itertools.product(inner[:5], repeat=2))
+  for i1, i2 in pairs:
+    for op1, op2 in (('Sum', 'Max'), ('Count', 'Min'), ('List', 'Sum')):
+      yield Case('AGGE', Program([R('T', x, s_, t_, body=(Lit('B', x), Eq(s_, Comb(op1, y, i1)), Eq(t_, Comb(op2, y, i2))))]), ['T'])
+  # nested combines
+  for ib in inner[:4]:
+    for op in ('Sum', 'Max'):
+      yield Case('AGGE', Program([R('T', x, s_, body=(Lit('B', x), Eq(s_, Comb(op, Bin('+', y, u_), (Lit('A', x, y), Eq(u_, Comb('Sum', z, (Lit('A', y, z),))))))))]), ['T'])
+      yield Case('AGGE', Program([R('T', x, s_, body=(Lit('B', x), Eq(s_, Comb(op, u_, tuple(ib) + (Eq(u_, Comb('Max', y, (Lit('A', y, x),))),)))))]), ['T'])
+      yield Case('AGGE', Program([R('T', x, s_, body=(Lit('B', x), Eq(s_, Comb(op, Bin('+', y, Comb('Sum', y, (Lit('A', y, N(1)),))), tuple(ib)))))]), ['T'])
+      yield Case('AGGE', Program([R('T', s_, body=(Eq(s_, Comb(op, Bin('+', y, Comb('Sum', y, (Lit('A', y, N(1)),))), (Lit('A', x, y),))),))]), ['T'])
+  # combine in head expression, in if, over in, in comparison
+  for ib in inner[:5]:
+    yield Case('AGGE', Program([R('T', x, Comb('Sum', y, ib), body=(Lit('B', x),))]), ['T'])
+    yield Case('AGGE', Program([R('T', x, Bin('+', Comb('Count', y, ib), N(1)), body=(Lit('B', x),))]), ['T'])
+    yield Case('AGGE', Program([R('T', x, ('if', Bin('>', Comb('Count', y, ib), N(0)), N(1), N(0)), body=(Lit('B', x),))]), ['T'])
+    yield Case('AGGE', Program([R('T', x, body=(Lit('B', x), Cmp('>', Comb('Sum', y, ib), N(1))))]), ['T'])
+    yield Case('AGGE', Program([R('T', x, body=(Lit('B', x), ('cmp', ('isnull', Comb('Max', y, ib)))))]), ['T'])
+    yield Case('AGGE', Program([R('T', x, value=Comb('Max', y, ib), body=(Lit('B', x),))]), ['T'])
+  yield Case('AGGE', Program([R('T', x, s_, body=(Lit('B', x), Eq(s_, Comb('Sum', y, (('in', y, ('list', (x, N(1), N(2)))),)))))]), ['T'])
+  yield Case('AGGE', Program([R('T', x, s_, body=(Lit('B', x), Eq(s_, Comb('List', y, (('in', y, ('list', (x, N(1)))), Cmp('>', y, N(1)))))))]), ['T'])
+  # combine inside an injected predicate: must not capture the caller's variable of the same name
+  J = R('J', x, s_, body=(Eq(s_, Comb('Sum', y, (Lit('A', x, y),))),))
+  yield Case('AGGE', Program([J, R('T', y, s_, body=(Lit('B', y), Lit('J', y, s_)))]), ['T'])
+  yield Case('AGGE', Program([J, R('T', x, y, s_, body=(Lit('A', x, y), Lit('J', y, s_)))]), ['T'])
+  yield Case('AGGE', Program([J, R('T', x, y, s_, body=(Lit('A', x, y), Lit('J', x, s_)))]), ['T'])
+
+
+def gen_neg(full):
+  inner = AGGE_INNER[:7]
+  for ib in inner:
+    yield Case('NEG', Program([R('T', x, body=(Lit('B', x), Not(*ib)))]), ['T'])
+    yield Case('NEG', Program([R('T', x, y, body=(Lit('A', x, y), Not(*ib)))]), ['T'])
+    yield Case('NEG', Program([R('T', x, body=(Lit('B', x), Not(Not(*ib))))]), ['T'])
+    yield Case('NEG', Program([R('T', x, body=(Lit('B', x), Not(*ib), Not(Lit('A', y, x))))]), ['T'])
+    yield Case('NEG', Program([R('T', x, body=(Not(*ib), Lit('B', x)))]), ['T'])
+    yield Case('NEG', Program([R('T', x, body=(Lit('B', x), Not(*(tuple(ib) + (Cmp('>', y, x),)))))]), ['T'])
+    yield Case('NEG', Program([R('T', x, body=(Lit('B', x), ('imp', tuple(ib), (Lit('B', y),))))]), ['T'])
+    yield Case('NEG', Program([R('T', x, body=(Lit('B', x), ('imp', (Lit('A', x, y),), tuple(ib))))]), ['T'])
+    # negation inside a combine, combine inside a negation
+    yield Case('NEG', Program([R('T', x, s_, body=(Lit('B', x), Eq(s_, Comb('Sum', z, (Lit('A', x, z), Not(*ib))))))]), ['T'])
+    yield Case('NEG', Program([R('T', x, body=(Lit('B', x), Not(Lit('A', x, z), Cmp('>', Comb('Count', y, ib), z))))]), ['T'])
+    yield Case('NEG', Program([R('T', x, Aggr('Count', y), body=(Lit('A', x, y), Not(*ib)), distinct=True)]), ['T'])
+  for b1, b2 in itertools.product(inner[:4], repeat=2):
+    yield Case('NEG', Program([R('T', x, body=(Lit('B', x), Not(*b1), Not(*b2)))]), ['T'])
+    yield Case('NEG', Program([R('T', x, body=(Lit('B', x), Not(Not(*b1), Not(*b2))))]), ['T'])
+    yield Case('NEG', Program([R('T', x, body=(Lit('B', x), ('or', ((Not(*b1),), (Not(*b2),)))))]), ['T'])
+  # negated intermediate predicate (concrete) and negated injectible
+  P = R('P', x, body=(Lit('A', x, y), Lit('B', y)))
+  yield Case('NEG', Program([P, R('T', x, body=(Lit('B', x), Not(Lit('P', x))))]), ['T'])
+  Q = R('Q', x, Aggr('Sum', y), body=(Lit('A', x, y),), distinct=True)
+  yield Case('NEG', Program([Q, R('T', x, body=(Lit('B', x), Not(Lit('Q', x, N(2)))))]), ['T'])
+  yield Case('NEG', Program([Q, R('T', x, body=(Lit('B', x), Not(Lit('Q', x, s_), Cmp('>', s_, N(2)))))]), ['T'])
+
+
+NULL_DBS_AB = [
+  {'A': [(1, None), (1, 2)], 'B': [(1,), (2,)]},
+  {'A': [(1, None)], 'B': [(1,)]},
+  {'A': [(1, None), (1, None), (2, 1)], 'B': [(1,), (2,)]},
+  {'A': [(2, None), (2, 2), (2, 1), (1, 2)], 'B': [(1,), (2,), (2,)]},
+]
+TIE_DBS_AB = [
+  {'A': [(1, 2), (1, 2), (2, 1)], 'B': [(1,), (2,)]},
+  {'A': [(1, 1), (1, 2), (2, 2)], 'B': [(1,), (2,)]},
+  {'A': [(1, 1), (2, 1), (2, 2), (1, 2)], 'B': [(2,), (1,), (1,)]},
+]
+
+
+def null_safe(case):
+  """null hygiene (DESIGN 2.4): A.col1 may hold null only if, in this program, it flows exclusively into aggregated
+  inputs / is-null tests / pass-through output.  Conservative syntactic test: every occurrence of a variable bound
+  at A's second argument is either a bare aggregated expression or a bare head argument, and A's second argument is
+  always a plain variable that occurs in no other literal, comparison or arithmetic."""
+  for r in case.program.rules():
+    ok = [True]
+    second = set()
+    def scan_body(body):
+      for p in body:
+        if p[0] == 'lit':
+          if p[1] == 'A':
+            a1 = p[2][1][1]
+            if a1[0] != 'v': ok[0] = False
+            else: second.add(a1[1])
+        elif p[0] in ('not', ): scan_body(p[1])
+        elif p[0] == 'or':
+          for b in p[1]: scan_body(b)
+        elif p[0] == 'imp': scan_body(p[1]); scan_body(p[2])
+    def combs(e):
+      def f(n):
+        if n[0] == 'comb': scan_body(n[3])
+        return n
+      lang.emap(e, f)
+    if r.body:
+      scan_body(r.body)
+      for p in r.body:
+        if p[0] == 'eq': combs(p[1]); combs(p[2])
+        if p[0] == 'aggeq': scan_body(p[4])
+    if not ok[0]: return False
+    # count uses of those variables anywhere except: as A's 2nd arg, as bare aggregated expr, bare head arg
+    text = lang.rule_str(r)
+    for v in second:
+      uses = 0
+      def count_e(e, bare_ok):
+        nonlocal uses
+        if e[0] == 'v':
+          if e[1] == v and not bare_ok: uses += 1
+          return
+        if e[0] == 'aggr': count_e(e[2], True); return
+        if e[0] == 'comb':
+          count_e(e[2], True); count_b(e[3]); return
+        for sub in sub_exprs(e): count_e(sub, False)
+      def count_b(body):
+        nonlocal uses
+        for p in body:
+          t = p[0]
+          if t == 'lit':
+            for i, (f, a) in enumerate(p[2]):
+              if p[1] == 'A' and i == 1 and a == ('v', v): continue
+              count_e(a, False)
+          elif t == 'cmp': count_e(p[1], False)
+          elif t in ('eq', 'in'): count_e(p[1], False); count_e(p[2], False)
+          elif t == 'not': count_b(p[1])
+          elif t == 'or':
+            for b in p[1]: count_b(b)
+          elif t == 'imp': count_b(p[1]); count_b(p[2])
+          elif t == 'aggeq': count_e(p[3], True); count_b(p[4])
+      for f, e in r.args: count_e(e, True)
+      if r.value is not None: count_e(r.value, True)
+      if r.body: count_b(r.body)
+      if uses: return False
+  return True
+
+
+def sub_exprs(e):
+  t = e[0]
+  if t in ('v', 'n', 's', 'b', 'null'): return []
+  if t == 'bin': return [e[2], e[3]]
+  if t == 'un': return [e[2]]
+  if t == 'isnull': return [e[1]]
+  if t == 'list': return list(e[1])
+  if t == 'rec': return [x for _, x in e[1]]
+  if t == 'fld': return [e[1]]
+  if t in ('elem', 'inx', 'arrow'): return [e[1], e[2]]
+  if t == 'if': return [e[1], e[2], e[3]]
+  if t == 'call': return [x for _, x in e[2]]
+  return []
+
+
+def c02_cases(thorough):
+  dbs = dbs_ab(2) + TIE_DBS_AB
+  seen = set()
+  for g in (gen_aggh(thorough), gen_agge(thorough), gen_neg(thorough)):
+    for c in g:
+      t = c.text()
+      if t in seen: continue
+      if not static_ok(c.program.rules(), 'T'): continue
+      seen.add(t)
+      c.dbs = list(dbs); c.fact_dbs = FACT_DBS_AB[1:]
+      # null-bearing databases only where the null flows into aggregated inputs / pass-through only; a grouped (distinct)
+      # head must not use the nullable variable as a key
+      if null_safe(c) and not any(r.distinct and any(e[0] != 'aggr' and 'y' in lang.evars(e) for _, e in r.args) for r in c.program.rules()):
+        c.dbs += NULL_DBS_AB
+      yield c
